@@ -115,7 +115,7 @@ def main():
     max_k = 6
     small_ops = ["-", "+", "=="]
     C.bounds = {"chain_operands": f"2..{max_k}", "operators": f"all {len(ops)} operator strings symbolic for chains up to {full_k} operands; "
-                f"{small_ops} for longer chains", "operands": "atoms (one token each; parenthesised operands are atoms to this loop)"}
+                f"{small_ops} for longer chains", "operands": f"one atom token each, or (chains up to {full_k} operands) a parenthesised atom"}
     C.assumptions += [
         "parse_expression_no_trailing on an operand token consumes exactly that token and returns an expression whose expr_ is not "
         "BinaryOperator (variables, literals and Parentheses(..)); checked concretely in translator validation",
@@ -133,6 +133,10 @@ def main():
         if not isinstance(t, Enum) or t.variant != "Some":
             raise Unsupported("operand token missing")
         tok = t.fields[0]
+        if tok.fields["text"].s == "(":
+            # a parenthesised operand: `(` atom `)` - still one non-operator expression to the infix loop
+            tok = I.deref(I.call_method(tokens, "pop", [], node)).fields[0]
+            I.call_method(tokens, "pop", [], node)
         nid = I.call_method(id_gen, "next", [], node)
         name = tok.fields["text"].s
         return Struct("Expression", {"position": tok.fields["position"], "expr_": Enum("Expression_", "Variable", [name]),
@@ -144,9 +148,19 @@ def main():
             ctx.assume(z3.And(v >= 0, v < len(optable)))
         toks = []
         off = 0
+        # operand shapes: an atom, or (for the chains checked with all operators) a parenthesised atom - the loop may
+        # look at the token that starts an operand
+        shapes = [ctx.choose([True, True]) if k <= full_k else 0 for _ in range(k)]
         for i in range(k):
+            if shapes[i]:
+                toks.append(mk_token(Str("("), off, 1))
+                off += 1
             toks.append(mk_token(Str(f"x{i + 1}"), off, 2))
-            off += 3
+            off += 2
+            if shapes[i]:
+                toks.append(mk_token(Str(")"), off, 1))
+                off += 1
+            off += 1
             if i < k - 1:
                 toks.append(mk_token(AtomStr(opvars[i], optable), off, 2))
                 off += 3
@@ -158,7 +172,7 @@ def main():
         diags = Vec([])
         e = I.call_user(P.fns["parse_expression"], [stream, id_gen, diags])
         used_ops = [optable[ctx.known_tags.get(("atom", str(v)), None)] if False else None for v in opvars]
-        return {"I": I, "e": e, "opvars": opvars, "consumed": stream.fields["idx"], "diags": len(diags.items)}
+        return {"I": I, "e": e, "opvars": opvars, "consumed": stream.fields["idx"], "diags": len(diags.items), "shapes": shapes}
 
     def expected(k, opnames):
         t = "x1"
@@ -171,7 +185,7 @@ def main():
     FLT_OPS = {"+.", "-.", "*.", "/."}
     BOOL_OPS = {"&&", "||"}
 
-    def value_replay(opn):
+    def value_replay(opn, shapes=None):
         """Evaluate `x1 op1 x2 ...` and its explicit left-associative parenthesisation natively on several operand
         assignments that are well-typed under the left-associative reading."""
         pools = {"Int": [["7", "3", "2", "5", "1", "4"], ["100", "7", "3", "2", "9", "5"], ["2", "3", "2", "3", "2", "3"]],
@@ -195,7 +209,8 @@ def main():
             for i, t in enumerate(types):
                 pool = pools[t][variant % len(pools[t])]
                 operands.append(pool[i % len(pool)])
-            chain = " ".join(x for j in range(len(operands)) for x in ([operands[j]] + ([opn[j]] if j < len(opn) else [])))
+            shown = [f"({o})" if shapes and j < len(shapes) and shapes[j] else o for j, o in enumerate(operands)]
+            chain = " ".join(x for j in range(len(operands)) for x in ([shown[j]] + ([opn[j]] if j < len(opn) else [])))
             paren = operands[0]
             for j, o in enumerate(opn):
                 paren = f"({paren} {o} {operands[j + 1]})"
@@ -216,9 +231,11 @@ def main():
         C.note_paths(res)
         n_ok = 0
         for i, r in enumerate(res):
-            def replay(m, k=k, optable=optable):
+            shapes_r = r.value["shapes"] if r.kind == "ok" else [0] * k
+
+            def replay(m, k=k, optable=optable, shapes_r=shapes_r):
                 opn = [optable[m.eval(z3.Int(f"op{j}"), model_completion=True).as_long()] for j in range(k - 1)]
-                src = " ".join(x for j in range(k) for x in ([f"x{j + 1}"] + ([opn[j]] if j < k - 1 else []))) + "\n"
+                src = " ".join(x for j in range(k) for x in ([f"(x{j + 1})" if shapes_r[j] else f"x{j + 1}"] + ([opn[j]] if j < k - 1 else []))) + "\n"
                 shape, code, err = native_ast_shape(src)
                 want = expected(k, [ops[o] for o in opn])
                 if shape == want:
@@ -226,7 +243,7 @@ def main():
                 # The property is about evaluation: a regrouping that no operand values can observe (e.g. of an
                 # associative operator) does not violate it.  Look for operands on which the chain's value differs
                 # from the explicitly parenthesised left-associative reading.
-                vals = value_replay(opn)
+                vals = value_replay(opn, shapes_r)
                 if vals is None:
                     return {"reproduced": True, "artefact": {"source": src.strip()},
                             "detail": f"parsed as {shape}, left-associative is {want} (no well-typed operands to compare values)"}
